@@ -305,7 +305,9 @@ class GeminiServerProtocol(asyncio.Protocol):
             if isinstance(response.body, bytes):
                 body = response.body
             else:
-                body = response.body.encode("utf-8")
+                # Text that cannot be encoded (e.g. a directory listing with a
+                # file name that is not valid UTF-8) must not prevent a response
+                body = response.body.encode("utf-8", errors="replace")
 
         self.response_sent = True
         self.transport.write(header)
